@@ -1,10 +1,10 @@
 /-
-  Model/LoopAst.lean — a tiny abstract syntax for the five Python functions that make up the
-  three receive loops of property C04:
+  Model/LoopAst.lean — a tiny abstract syntax for the Python functions that make up the
+  request/response exchanges of property C04:
 
-      Rmcp._send_and_receive                         (pyipmi/interfaces/rmcp.py)
-      IpmbDev._send_and_receive, IpmbDev._receive_raw   (pyipmi/interfaces/ipmbdev.py)
-      Aardvark._send_and_receive, Aardvark._receive_raw (pyipmi/interfaces/aardvark.py)
+      Rmcp._send_and_receive, Rmcp._drain_socket        (pyipmi/interfaces/rmcp.py)
+      IpmbDev._send_and_receive, IpmbDev._receive_raw, IpmbDev.is_ipmc_accessible    (pyipmi/interfaces/ipmbdev.py)
+      Aardvark._send_and_receive, Aardvark._receive_raw, Aardvark.is_ipmc_accessible (pyipmi/interfaces/aardvark.py)
 
   `harness/translate/loops04.py` re-reads these functions from the working tree on every run
   and writes them, statement by statement, as values of type `Fun` into Gen/Loops04.lean.
@@ -35,8 +35,9 @@ namespace PyIpmi.LoopAst
 /-- Attribute, method, global and keyword names that occur in the five functions (leading
 underscore written `u_`). -/
 inductive Sym where
-  | CMDID_SEND_MESSAGE | IOError | IpmbHeaderReq | IpmiTimeoutError | RetryError
-  | u_dev | u_inc_sequence_number | u_q | u_receive_ipmi_msg | u_receive_raw | u_send_ipmi_msg | u_send_raw
+  | CMDID_SEND_MESSAGE | NETFN_APP | IOError | OSError | IpmbHeaderReq | IpmiTimeoutError | RetryError
+  | u_dev | u_sock | u_inc_sequence_number | u_drain_socket | u_q | u_receive_ipmi_msg | u_receive_raw
+  | u_send_ipmi_msg | u_send_raw | gettimeout | settimeout | recvfrom | verify
   | array | cmdid | constants | decode_bridged_message | empty | encode_bridged_message | encode_ipmb_msg
   | get | put | i2c_slave_read | ignore_rq_seq | ignore_sdu_length | int | ipmb_address | len | max_retries
   | netfn | next_sequence_number | os | poll | py3_array_tobytes | read | routing | range
@@ -91,6 +92,7 @@ inductive S where
   | while_ (c : E) (body orelse : B)
   | for_ (target iter : E) (body orelse : B)
   | try_ (body : B) (handlers : H)
+  | tryf (body : B) (handlers : H) (final : B)   -- try … except … finally
   | with_ (ctx : E) (body : B)
   | brk | cont | pass_
   | raise (exc : E)                    -- exception class (message dropped); `none` = re-raise
@@ -164,6 +166,7 @@ def S.calls (s : Sym) : S → Nat
   | .while_ c b o => c.calls s + b.calls s + o.calls s
   | .for_ t i b o => t.calls s + i.calls s + b.calls s + o.calls s
   | .try_ b h => b.calls s + h.calls s
+  | .tryf b h f => b.calls s + h.calls s + f.calls s
   | .with_ c b => c.calls s + b.calls s
   | .raise e => e.calls s
   | .ret e => e.calls s
